@@ -46,6 +46,12 @@ let catalogue : (string * piece list) array = [|
      template text, never what a tag prints *)
   "literal-print", [ T "x"; V " a "; V " ' ' "; V " b "; V " '  pad  ' "; B " if a "; V " ' in ' "; B " endif "; V " \"\\t\" "; V " a "; T "y" ];
   "literal-print-2", [ V " ' lead' "; V " a "; V " 'trail ' "; B " for i in items "; V " ' ' "; V " i "; B " endfor "; V " ' ' ~ ' ' "; V " sp "; V " a " ];
+  (* letters whose code point, cut to one byte, is that of a blank, tab, CR or LF (U+0420, U+010D, U+4E0D, U+4E0A, U+2020,
+     U+0109, U+0220), at the edges of the texts next to the tags *)
+  "letters-like-blanks", [ T "\xd0\xa0"; V " a "; T "\xd0\xa0\xd0\xbe\xd1\x81 \xc4\x8d"; V " b "; T "\xe4\xb8\x8d\xe4\xb8\x8a\xe2\x80\xa0"; B " if a "; T "\xe2\x80\xa0x\xe4\xb8\x8a"; B " endif ";
+                           T "\xc4\x8d"; V " a "; T "\xc4\x89\xc8\xa0" ];
+  (* a do tag that is no assignment, with assignments, defaults and with-hashes in the tags that follow *)
+  "do-then-assignments", [ T "s "; B " do 1 + 2 "; T " "; B " set y = 7 "; V " y "; B " do a "; B " macro m(p = 1) "; T "m"; B " endmacro "; B " do m(2) "; B " include 'inc' with {'a': 'W'} only "; T " ." ];
   (* the closing tag repeats the block's name *)
   "block-named", [ T "[ "; B " block b "; T " body "; V " a "; T " "; B " endblock b "; T " ]" ];
   "block-named-ext", [ B " extends 'base' "; B " block b "; T " child "; V " a "; T " "; B " endblock b " ];
